@@ -78,12 +78,17 @@ structure StB where
   failC     : Nat → Bool
   /-- value returned by the last `co_shutdown()` of the scheduler: `some true/false`, or `none` -/
   sdValue   : Nat → Option Bool
+  /-- instant at which `co_run` of the scheduler began (ghost) -/
+  tbegin    : Nat → Nat
+  /-- instant at which the scheduler's shutdown broadcast began (ghost) -/
+  tsd       : Nat → Nat
 
 def StB.init : StB :=
   { a := StA.init, pcB := fun _ => .notBegun, nbDone := fun _ => 0, deadline := fun _ => none,
     carrived := fun _ => false, didSd := fun _ => false, bc := fun _ => .bnone, hdeadline := fun _ => none,
     hph := fun _ => .hnone, hcreq := fun _ => false, hcarrived := fun _ => false, hcalls := fun _ => 0,
-    failT := fun _ => false, failC := fun _ => false, sdValue := fun _ => none }
+    failT := fun _ => false, failC := fun _ => false, sdValue := fun _ => none,
+    tbegin := fun _ => 0, tsd := fun _ => 0 }
 
 inductive EvB
   | runBegin
@@ -157,6 +162,7 @@ def broadcast (c : Cfg) (st : StB) (s : Nat) (w : Who) : StB :=
     hcreq := fun k => if k ∈ c.children s then false else st.hcreq k
     hcalls := fun k => if k ∈ c.children s then st.hcalls k + 1 else st.hcalls k
     hdeadline := setAt st.hdeadline s ((c.sdTimeout s).map (st.a.now + ·))
+    tsd := setAt st.tsd s st.a.now
     bc := setAt st.bc s (.bwait w) }
 
 /-- the value / exception `co_run` of `s` ends with, after exit `x` (purescheduler 1013-1059 + scheduler.py 114-136);
@@ -193,8 +199,9 @@ def exitLoop (_c : Cfg) (st : StB) (s : Nat) (x : Exit) (a' : StA) : StB :=
 
 /-- layer-B bookkeeping when `co_run` of `s` begins -/
 def beginB (c : Cfg) (st : StB) (s : Nat) (a' : StA) : StB :=
-  if (c.children s).isEmpty then { st with a := a', pcB := setAt st.pcB s .over }
+  if (c.children s).isEmpty then { st with a := a', pcB := setAt st.pcB s .over, tbegin := setAt st.tbegin s st.a.now }
   else { st with a := a', pcB := setAt st.pcB s .loop, nbDone := setAt st.nbDone s 0,
+                 tbegin := setAt st.tbegin s st.a.now,
                  deadline := setAt st.deadline s ((c.timeout s).map (st.a.now + ·)) }
 
 /-- nothing that must happen "now" is pending (assumption A2: the clock does not advance meanwhile) -/
@@ -294,9 +301,9 @@ def stepB (c : Cfg) (st : StB) : EvB → Option StB
       if st.didSd j then
         -- `if self._did_shutdown: return` (None)
         some { st with hph := setAt st.hph j .hdone, sdValue := setAt st.sdValue j none }
-      else if (c.children j).isEmpty then
-        some { st with hph := setAt st.hph j .hdone, didSd := setAt st.didSd j true, sdValue := setAt st.sdValue j (some true) }
-      else some (broadcast c st j .relay)
+      else
+        -- (an empty scheduler has no handler to wait for: its `sdWaitReturn` is enabled at once)
+        some (broadcast c st j .relay)
     else none
   | .hEnd j =>
     if 0 < j ∧ j < c.n ∧ c.isSched j = false ∧ st.hph j = .hactive ∧ st.hcreq j = false then
